@@ -261,6 +261,20 @@ class PPA:
                 rr = self.range_of_iter(env, init, depth)
                 if rr is not None:
                     return rr
+            # index component of `for (i, x) in s.iter().enumerate()`: 0 .. len(s) - 1
+            if t == "field" and e[2] == "0" and e[1][0] == "vfield" and e[1][2] == "Some" and e[1][1][0] == "call" and e[1][1][4] == "std::iter::Iterator::next":
+                it = e[1][1][2][0]
+                init = env.g.eb.init_expr(it[1]) if it[0] == "phi" else it
+                if init is not None and init[0] == "call" and init[1].split("::")[-1] == "enumerate" and init[2]:
+                    srcs = init[2][0]
+                    while srcs[0] == "call" and srcs[1].split("::")[-1] in ("iter", "iter_mut", "into_iter") and srcs[2]:
+                        srcs = srcs[2][0]
+                    ln = self.iv(env, ("len", srcs), depth + 1)
+                    if srcs[0] == "call" and srcs[4] in ("std::ops::Index::index", "std::ops::IndexMut::index_mut") and len(srcs[2]) == 2 and \
+                            srcs[2][1][0] == "agg" and str(srcs[2][1][1]).endswith("RangeTo") and len(srcs[2][1][2]) == 1:
+                        ln = self.iv(env, srcs[2][1][2][0], depth + 1)       # s[..n] has n elements
+                    if ln.hi >= 1:
+                        return Iv(0, ln.hi - 1)
             r = self.field_iv(f, e)
             if r is not None:
                 return r
